@@ -54,23 +54,46 @@ def lin_eq(a, b):
 
 
 # ------------------------------------------------------------------ element types
-def elem_fields(I, adt):
+def elem_domains(I, adt):
+    """((field name, enum adt or None, (values...)), ...): every field of a sequence element is a bool or a small field-less local enum."""
+    cache = I.__dict__.setdefault("_elem_domains", {})
+    if adt in cache:
+        return cache[adt]
     a = I.prog.adts.get(adt)
     if a is None or a.get("kind") != "struct":
         raise Undecided("sequence element type %s is not a local struct" % adt)
-    fs = []
+    out = []
     for fd in a["variants"][0]["fields"]:
         t = I.prog.ty(fd["ty"])
-        if t["k"] != "bool":
-            raise Undecided("sequence element field %s.%s is not bool" % (adt, fd["name"]))
-        fs.append(fd["name"])
-    return tuple(fs)
+        if t["k"] == "bool":
+            out.append((fd["name"], None, (False, True)))
+            continue
+        ea = I.prog.adts.get(t.get("path")) if t["k"] == "adt" else None
+        if ea is not None and ea.get("kind") == "enum" and all(not v["fields"] for v in ea["variants"]) and 1 <= len(ea["variants"]) <= 4:
+            out.append((fd["name"], t["path"], tuple(v["name"] for v in ea["variants"])))
+            continue
+        raise Undecided("sequence element field %s.%s is neither bool nor a small field-less enum" % (adt, fd["name"]))
+    cache[adt] = tuple(out)
+    return cache[adt]
 
 
-def all_combos(n):
+def elem_fields(I, adt):
+    return tuple(d[0] for d in elem_domains(I, adt))
+
+
+def field_value(dom, val):
+    """The abstract value of one element field holding `val` (a bool or a variant name)."""
+    return VBool(val) if dom[1] is None else VEnum(dom[1], val, ())
+
+
+def all_combos(I_or_n, adt=None):
+    if adt is None:          # legacy: n bool fields
+        doms = [(None, None, (False, True))] * I_or_n
+    else:
+        doms = elem_domains(I_or_n, adt)
     out = [()]
-    for _ in range(n):
-        out = [c + (b,) for c in out for b in (False, True)]
+    for d in doms:
+        out = [c + (b,) for c in out for b in d[2]]
     return frozenset(out)
 
 
@@ -92,11 +115,12 @@ def force_symbool(I, st, v):
     adt, allowed = ent
     fs = elem_fields(I, adt)
     i = fs.index(v.field)
-    vals = sorted({c[i] for c in allowed})
+    dom = elem_domains(I, adt)[i]
+    vals = sorted({c[i] for c in allowed}, key=repr)
     if not vals:
         raise Infeasible("element with no allowed combination")
     if len(vals) == 1:
-        return VBool(vals[0])
+        return field_value(dom, vals[0])
     opts = []
     for b in vals:
         def f(s, b=b):
@@ -116,6 +140,8 @@ def elem_combo_now(I, st, tid):
     for f, x in val.fields:
         if isinstance(x, VBool):
             out.append(x.b)
+        elif isinstance(x, VEnum) and not x.fields:
+            out.append(x.variant)
         elif isinstance(x, VSymBool):
             ent = mget(st, "combos").get(x.elem)
             vals = {c[elem_fields(I, ent[0]).index(x.field)] for c in ent[1]} if ent else set()
@@ -230,9 +256,8 @@ def fork_materialise_end(I, st, gid, at_end=True):
 
 def pred_on_combo(I, st, pred, adt, combo, by_ref=2):
     """Evaluate a closure on a concrete element value (by_ref = number of reference layers of its argument)."""
-    fs = elem_fields(I, adt)
-    sc = st
-    val = VStruct(adt, tuple((f, VBool(b)) for f, b in zip(fs, combo)))
+    doms = elem_domains(I, adt)
+    val = VStruct(adt, tuple((d[0], field_value(d, b)) for d, b in zip(doms, combo)))
     arg = val
     tmp_state = st.copy()
     for _ in range(by_ref):
@@ -1093,6 +1118,85 @@ def m_split_at(I, st, args, c, dest, target, span):
 wrap(["core::str::<impl str>::split_at"], m_split_at)
 
 
+def is_nl_pattern(I, st, v):
+    v = I.force(st, v)
+    return isinstance(v, VInt) and v.t.is_const() and v.t.c == 10
+
+
+def m_split_inclusive(I, st, args, c, dest, target, span):
+    parts = str_parts(I, st, args[0])
+    if parts is None:
+        return NotImplemented
+    if not is_nl_pattern(I, st, args[1]):
+        raise Undecided("split_inclusive with a pattern other than the line-break character")
+    return VPy("splitinc", parts)
+
+
+wrap(["core::str::<impl str>::split_inclusive"], m_split_inclusive)
+
+
+def m_splitinc_next(I, st, args, c, dest, target, span):
+    r = iter_place(I, st, args[0])
+    v = I.force(st, I.load(st, r.root, r.path))
+    if not (isinstance(v, VPy) and v.tag == "splitinc"):
+        return NotImplemented
+    parts = norm_parts(st, v.data)
+    if not parts:
+        return none()
+    out = []
+    for j, p in enumerate(parts):
+        if p[0] == "any":
+            fork_any(I, st, p[1])
+        if p[0] == "lit" and "\n" in p[1]:
+            i = p[1].index("\n") + 1
+            out.append(("lit", p[1][:i]))
+            rest = ((("lit", p[1][i:]),) if p[1][i:] else ()) + tuple(parts[j + 1:])
+            I.store(st, r.root, r.path, VPy("splitinc", rest))
+            return some(mk_str(tuple(out)))
+        out.append(p)
+        if p[0] == "nl":
+            I.store(st, r.root, r.path, VPy("splitinc", tuple(parts[j + 1:])))
+            return some(mk_str(tuple(out)))
+    # no line break left: the last piece (non-empty by construction unless all texts are empty)
+    if I.cmp(st, parts_len(st, tuple(out)), Lin(0), "Eq"):
+        I.store(st, r.root, r.path, VPy("splitinc", ()))
+        return none()
+    I.store(st, r.root, r.path, VPy("splitinc", ()))
+    return some(mk_str(tuple(out)))
+
+
+wrap(["<core::str::iter::SplitInclusive<'a, P> as core::iter::traits::iterator::Iterator>::next"], m_splitinc_next)
+
+
+def m_str_ends_with(I, st, args, c, dest, target, span):
+    parts = str_parts(I, st, args[0])
+    if parts is None:
+        return NotImplemented
+    if not is_nl_pattern(I, st, args[1]):
+        raise Undecided("ends_with/starts_with with a pattern other than the line-break character")
+    starts = c.get("path", "").endswith("starts_with")
+    if not parts:
+        return VBool(False)
+    p = parts[0] if starts else parts[-1]
+    if p[0] == "nl":
+        return VBool(True)
+    if p[0] == "lit":
+        return VBool(p[1].startswith("\n") if starts else p[1].endswith("\n"))
+    if p[0] == "txt":
+        lo = st.bounds.get(("slen", p[1]), (0, 0))[0]
+        if lo >= 1:
+            return VBool(False)
+        if I.cmp(st, Lin(0, ("slen", p[1]), 1), Lin(0), "Eq"):
+            # an empty text: look at the neighbour
+            rest = parts[1:] if starts else parts[:-1]
+            return m_str_ends_with(I, st, [mk_str(rest), args[1]], c, dest, target, span)
+        return VBool(False)
+    fork_any(I, st, p[1])
+
+
+wrap(["core::str::<impl str>::ends_with", "core::str::<impl str>::starts_with"], m_str_ends_with)
+
+
 # ---- the output sink
 def m_sink_write_str(I, st, args, c, dest, target, span):
     if not st.meta.get("pp"):
@@ -1119,6 +1223,71 @@ def m_sink_write_char(I, st, args, c, dest, target, span):
 
 
 wrap(["<core::fmt::Formatter<'_> as core::fmt::Write>::write_char", "core::fmt::Formatter::<'a>::write_char"], m_sink_write_char)
+
+
+# ---- formatting machinery as events (driver analysis): which payload is formatted, through which trait, with which template
+def payload_node(I, st, v):
+    v = I.force(st, v)
+    guard = 0
+    while isinstance(v, VRef) and guard < 4:
+        if v.root[0] == "node" and v.path and v.path[0][1] == "data":
+            return v.root[1]
+        v = I.force(st, I.load(st, v.root, v.path))
+        guard += 1
+    if isinstance(v, VOpaque) and v.tag == "payload":
+        return v.id
+    return None
+
+
+def m_fmt_argument(I, st, args, c, dest, target, span):
+    if not st.meta.get("pp"):
+        return NotImplemented
+    kind = c.get("path", "").rsplit("::", 1)[-1].replace("new_", "")
+    n = payload_node(I, st, args[0])
+    return VPy("fmtarg", (kind, n if n is not None else repr(I.force(st, args[0]))))
+
+
+wrap(["core::fmt::rt::Argument::<'_>::new_display", "core::fmt::rt::Argument::<'_>::new_debug"], m_fmt_argument)
+
+
+def m_fmt_arguments(I, st, args, c, dest, target, span):
+    if not st.meta.get("pp"):
+        return NotImplemented
+    tpl = I.force(st, args[0])
+    arr = I.force(st, args[1]) if len(args) > 1 else UNIT
+    guard = 0
+    while isinstance(arr, VRef) and guard < 4:
+        arr = I.force(st, I.load(st, arr.root, arr.path))
+        guard += 1
+    items = tuple(arr.items) if isinstance(arr, VTuple) else ()
+    return VPy("fmtargs", (repr(tpl), tuple(x.data if isinstance(x, VPy) and x.tag == "fmtarg" else ("?", repr(x)) for x in items)))
+
+
+wrap(["core::fmt::Arguments::<'a>::new", "core::fmt::Arguments::<'a>::new_v1", "core::fmt::Arguments::<'a>::new_v1_formatted"], m_fmt_arguments)
+
+
+def m_write_fmt(I, st, args, c, dest, target, span):
+    if not st.meta.get("pp"):
+        return NotImplemented
+    a = I.force(st, args[1])
+    if not (isinstance(a, VPy) and a.tag == "fmtargs"):
+        raise Undecided("write_fmt of %r" % (a,))
+    tpl, items = a.data
+    for (kind, n) in items:
+        st.events.append(("format", kind, n, tpl))
+    return ok(UNIT)
+
+
+wrap(["core::fmt::Write::write_fmt"], m_write_fmt)
+
+
+def m_alternate(I, st, args, c, dest, target, span):
+    if not st.meta.get("pp") or "alternate" not in st.meta:
+        return NotImplemented
+    return VBool(bool(st.meta["alternate"]))
+
+
+wrap(["core::fmt::Formatter::<'a>::alternate"], m_alternate)
 
 
 # ------------------------------------------------------------------ trace normal form
